@@ -228,7 +228,7 @@ func init() {
 		Run: func(c *harness.Ctx, idx int, r *harness.Rec) {
 			progs := runtimeProgs(c)
 			p := progs[idx/4]
-			cfg := []explore.Config{{0, false}, {1, false}, {0, true}, {1, true}}[idx%4]
+			cfg := []explore.Config{{Mode: 0, Monitor: false}, {Mode: 1, Monitor: false}, {Mode: 0, Monitor: true}, {Mode: 1, Monitor: true}}[idx%4]
 			if cfg.Monitor && strings.HasPrefix(p.Name, "gen") {
 				return
 			}
@@ -286,12 +286,12 @@ func init() {
 		Cases: func(c *harness.Ctx) int { return len(runtimeProgs(c)) },
 		Run: func(c *harness.Ctx, idx int, r *harness.Rec) {
 			p := runtimeProgs(c)[idx]
-			cfgs := []explore.Config{{0, false}, {1, false}, {0, true}, {1, true}}
+			cfgs := []explore.Config{{Mode: 0, Monitor: false}, {Mode: 1, Monitor: false}, {Mode: 0, Monitor: true}, {Mode: 1, Monitor: true}}
 			if ContractionFree(p.Text) {
 				cfgs = append(cfgs, explore.Config{Mode: 2}, explore.Config{Mode: 2, Monitor: true})
 			}
 			if strings.HasPrefix(p.Name, "gen") {
-				cfgs = []explore.Config{{0, false}, {1, false}}
+				cfgs = []explore.Config{{Mode: 0, Monitor: false}, {Mode: 1, Monitor: false}}
 				if ContractionFree(p.Text) {
 					cfgs = append(cfgs, explore.Config{Mode: 2})
 				}
